@@ -87,11 +87,11 @@ type Field struct {
 	Name    string
 	Type    *Type
 	Req     Requiredness
-	Default *Val   // nil = none
+	Default *Val // nil = none
 	// DefaultConst, when set, names a constant of the same file that the IDL gives as
 	// the default (Default still holds its value)
 	DefaultConst string
-	Annot   string // raw annotation text, e.g. `go.redact`
+	Annot        string // raw annotation text, e.g. `go.redact`
 	// GoName is the name of the generated Go field when the annotations rename it
 	// (go.name); empty = Name.
 	GoName string
@@ -117,7 +117,7 @@ type Def struct {
 	// AllowEmpty: a union that may have no member set (the result struct of a
 	// function that returns nothing)
 	AllowEmpty bool
-	Parent string
+	Parent     string
 	// GoName, when set, is emitted as the go.name annotation of the definition
 	// (typedef, enum, struct, union, exception): the generated Go type has this name.
 	GoName string
@@ -371,6 +371,11 @@ type Val struct {
 	Items  []Val           // list / set elements; map: k0,v0,k1,v1,...
 	Fields map[string]*Val // struct-like: absent = unset
 	Nil    bool            // container that is nil rather than empty (only meaningful for Go-side observations)
+	// Bad: while this value was read from the wire, an occurrence of one of its fields
+	// (possibly overwritten by a later occurrence) held an invalid value - a union without
+	// exactly one member, a struct lacking a required field. A decoder reads occurrences
+	// as they come, so the whole decode fails.
+	Bad bool
 }
 
 // Int, Str, ... constructors.
@@ -548,6 +553,9 @@ func (p *Program) FromWire(f *File, t *Type, w tbin.Value) (*Val, bool) {
 			for _, fd := range d.Fields {
 				if fd.ID == wf.ID {
 					if fv, ok := p.FromWire(g, fd.Type, wf.V); ok {
+						if !p.Valid(g, fd.Type, fv) {
+							out.Bad = true
+						}
 						if fv.Nil && (d.Kind == "union" || fd.Req != Required) {
 							// a container written with another element type reads as a nil
 							// container: an optional field / union member is then not set
